@@ -1,6 +1,6 @@
 """x86-64 AT&T subset semantics for the inline-asm templates of the scalar field primitives, over the kernel-mode domain.
 
-Mnemonics understood: xor r,r (zeroing) | mov (64-bit, 32-bit with zero extension) | add | sub | adc | cmovc | jnc <label>f |
+Mnemonics understood: xor r,r (zeroing) | test r,r + jz/jnz | mov (64-bit, 32-bit with zero extension) | add | sub | adc | cmovc | jnc <label>f |
 mul/mulq | rol $32 | numeric labels.  Anything else is ANALYSIS-INCOMPLETE.  R-ASM facts (registers written vs outputs and
 clobbers, early-clobber, memory operands) are collected for the lint in C01.
 """
@@ -114,7 +114,7 @@ def do_asm(K, st, ins):
             raise Undecided('asm input constraint ' + cst)
     lines = [l.strip() for l in tmpl.split('\n') if l.strip()]
 
-    def run(case, regs, cf, pc):
+    def run(case, regs, cf, pc, zf=None):
         while pc < len(lines):
             l = lines[pc]
             pc += 1
@@ -174,8 +174,25 @@ def do_asm(K, st, ins):
                 for cc, v, cy in alts:
                     r2 = dict(regs)
                     r2[wrname(opsx[1])] = v
-                    res += run(cc, r2, cy, pc)
+                    res += run(cc, r2, cy, pc, None)
                 return res
+            if mn in ('test', 'testl', 'testq') and len(opsx) == 2 and opsx[0] == opsx[1]:
+                # test r,r: ZF = (r == 0) for the register (or 32-bit sub-register) named; CF = 0.  Partition on the value.
+                v = rd(opsx[0])
+                res = []
+                from .kernel import decide_gt
+                for cc, gt in decide_gt(case, KV(v.p, v.lo, v.hi), const(0)):
+                    res += run(cc, dict(regs), 0, pc, not gt)
+                return res
+            if mn in ('jz', 'je', 'jnz', 'jne'):
+                if zf is None:
+                    raise Undecided('%s after an instruction whose zero flag is not modelled' % mn)
+                if zf == (mn in ('jz', 'je')):
+                    lab = opsx[0].rstrip('fb') + ':'
+                    if lab not in lines[pc:]:
+                        raise Undecided('asm backward / missing label')
+                    pc = lines.index(lab, pc) + 1
+                continue
             if mn in ('cmovc', 'jnc') and cf is None:
                 raise Undecided('%s after an instruction whose carry flag is not modelled' % mn)
             if mn == 'cmovc':
